@@ -4,7 +4,7 @@ open Infretis Infretis.Proto Infretis.Moves Infretis.Engine
 
 def showStatus : Status → String
   | .ACC => "ACC" | .KOB => "KOB" | .BTL => "BTL" | .BTX => "BTX" | .BWI => "BWI"
-  | .FTL => "FTL" | .FTX => "FTX" | .ZL => "0-L" | .NCR => "NCR"
+  | .FTL => "FTL" | .FTX => "FTX" | .ZL => "0-L" | .NCR => "NCR" | .NSG => "NSG"
 
 def showErr : Err → String
   | .value => "err:value" | .badDraw => "err:baddraw" | .zerodiv => "err:zerodiv"
@@ -55,6 +55,49 @@ def parseShootIn (toks : List String) : Option ShootIn :=
     | _, _, _, _, _, _, _, _, _, _, _ => none
   | _ => none
 
+/-- jumps: count, then per jump `idx kick list(back) list(forw)` -/
+def parseJumps : Nat → List String → Option (List WfJump × List String)
+  | 0, rest => some ([], rest)
+  | n + 1, idx :: kick :: rest =>
+    match parseNat? idx, parseInt? kick, takeList parseInt? rest with
+    | some idx, some kick, some (back, rest) =>
+      match takeList parseInt? rest with
+      | some (forw, rest) =>
+        match parseJumps n rest with
+        | some (js, rest) => some ({ idx := idx, kick := kick, back := back, forw := forw } :: js, rest)
+        | none => none
+      | none => none
+    | _, _, _ => none
+  | _ + 1, _ => none
+
+def parseWfIn (toks : List String) : Option WfIn :=
+  match toks with
+  | oto :: l :: m :: r :: cap :: ml :: nj :: sc :: sce :: xi :: rest =>
+    let capv : Option (Option Int) := if cap = "-" then some none else (parseInt? cap).map some
+    match parseInt? oto, parseInt? l, parseInt? m, parseInt? r, capv, parseNat? ml, parseNat? nj, parseSc? sc,
+          parseSc? sce, parseRat? xi, takeList parseInt? rest with
+    | some oto, some l, some m, some r, some capv, some ml, some nj, some (some sc), some (some sce), some xi,
+      some (old, rest) =>
+      match takeList parseInt? rest with
+      | some (eb, rest) =>
+        match takeList parseInt? rest with
+        | some (ef, cnt :: rest) =>
+          match parseNat? cnt with
+          | some cnt =>
+            match parseJumps cnt rest with
+            | some (js, []) =>
+              some { old := old, oldTimeOrigin := oto, l := l, m := m, r := r, cap := capv, maxlength := ml,
+                     nJumps := nj, sc := sc, scEns := sce, xiSeg := xi, jumps := js, extBack := eb, extForw := ef }
+            | _ => none
+          | none => none
+        | _ => none
+      | none => none
+    | _, _, _, _, _, _, _, _, _, _, _ => none
+  | _ => none
+
+def showWfOut (o : WfOut) : String :=
+  s!"ok {b01 o.accept} {showStatus o.status} {o.genSucc} {o.genLen} {o.timeOrigin} {b01 o.returnedOld} {b01 o.oldRewritten} | {showList toString o.path} | {showList showDraw o.draws}"
+
 def handle (toks : List String) : String :=
   match toks with
   | "shoot" :: v :: rest =>
@@ -62,6 +105,13 @@ def handle (toks : List String) : String :=
     | some v, some i =>
       match shoot v i with
       | .ok o => showShootOut o
+      | .error e => showErr e
+    | _, _ => "bad-op"
+  | "wf" :: v :: rest =>
+    match parseVariant? v, parseWfIn rest with
+    | some v, some i =>
+      match wireFencing v i with
+      | .ok o => showWfOut o
       | .error e => showErr e
     | _, _ => "bad-op"
   | "runmd" :: v :: rest =>
